@@ -58,6 +58,7 @@ type Contract struct {
 	TrustWhy string
 	Props    []string // properties this function's obligations belong to (tags)
 	Inline   bool
+	Prefix   bool // verify only the statements before the first one outside the subset (orchestration functions)
 	Where    string
 }
 
@@ -231,6 +232,8 @@ func (cs *ContractSet) parseFile(path string, pkgName string) error {
 					cur.Trusted = true
 				case o == "inline":
 					cur.Inline = true
+				case o == "prefix":
+					cur.Prefix = true
 				case strings.HasPrefix(o, "props="):
 					cur.Props = strings.Split(strings.TrimPrefix(o, "props="), ",")
 				}
